@@ -606,7 +606,7 @@ pub fn c04(ctx: &mut Ctx) {
     // them in one column (single letter), and spread over a few columns (period 3)
     for unit in [&b"A"[..], b"ACG", b"t"] {
         for k in [1usize, 3] {
-            if sh.mine() {
+            if sh.mine() && !ctx.monitor() {
                 let n = (1usize << 24) + 9 + k;
                 let s = fill(unit, n);
                 c04_one_as(ctx, &sets[k - 1], "huge-record", &s, false, Some((unit, n)));
@@ -638,6 +638,9 @@ pub fn c04(ctx: &mut Ctx) {
     // and records that repeat (identical neighbours, reverse complement of the previous record, ...)
     // and a record in which one window in two million differs from all others (printed values next to 1 and to 0)
     for set in ["long", "repeating", "near-one"] {
+        if ctx.monitor() && set != "repeating" {
+            continue;
+        }
         let records = c04_named_set(set);
         for k in [1usize, 3, 4] {
             for (mode, threads) in [("mmap", 3usize), ("batch-norm", 4), ("batch-small", 2), ("counts", 2), ("counts", 1), ("mmap-small", 2)] {
@@ -1364,7 +1367,7 @@ pub fn c12(ctx: &mut Ctx) {
     // one record with more than 2^24 windows (in one column; spread over three columns)
     for unit in [&b"A"[..], b"ACG"] {
         for norm in [true, false] {
-            if !sh.mine() {
+            if !sh.mine() || ctx.monitor() {
                 continue;
             }
             let k = 3usize;
@@ -1388,7 +1391,7 @@ pub fn c12(ctx: &mut Ctx) {
     let sets = c12_record_sets();
     ctx.lap("c12.sets");
     // outputs whose size is exactly a multiple of 4 KiB / 8 KiB / 64 KiB (and one row less, one more)
-    {
+    if !ctx.monitor() {
         let pool = &sets.iter().find(|(t, _)| *t == "twenty-thousand").unwrap().1;
         for (k, norm) in [(1usize, false), (2, true), (2, false)] {
             let mut comp = OligoCgrComputer::new("-".into(), "-".into(), k, 16);
@@ -1436,7 +1439,7 @@ pub fn c12(ctx: &mut Ctx) {
         }
     }
     ctx.lap("c12.count_lattice");
-    {
+    if !ctx.monitor() {
         let pool20 = &sets.iter().find(|(t, _)| *t == "twenty-thousand").unwrap().1;
         for &nrec in crate::enumr::POW2_COUNTS.iter() {
             for (threads, mem, norm) in [(1usize, 4usize << 30, false), (4, 4 << 30, true), (3, 2000, false)] {
@@ -1466,7 +1469,7 @@ pub fn c12(ctx: &mut Ctx) {
     }
     for threads in [1usize, 4] {
         for norm in [true, false] {
-            if sh.mine() {
+            if sh.mine() && !ctx.monitor() {
                 c12_file(ctx, &near_one_records(), 3, 16, norm, threads, 4 << 30, "near-one");
                 nf += 1;
             }
